@@ -1,31 +1,64 @@
 (* Front/MsgBufPinned.v — what the print_msg arithmetic of the CURRENT tree amounts to (C05).
-   These statements are about the regenerated values and are expected to stop compiling the
-   day print_msg hands vsnprintf the remaining room (MAX_MSG_SIZE - msg_len): then
-   [msg_write_within_buffer_verdict] (MsgBufProofs.v) reads as the universal statement and
-   this file is to be replaced by it.  No axioms. *)
+   These statements are about the regenerated values (Gen/FrontConsts.v) and may stop compiling
+   when print_msg changes; the generic theorems of MsgBufProofs.v (criterion, computed verdict)
+   do not.  History: up to the commit "fix: bound the diagnostic body by the space left in the
+   message buffer" vsnprintf was handed MAX_MSG_SIZE whatever msg_len was; the statement
+   msg_write_within_buffer was then FALSE ([msg_unbounded_body_limit_refuted] keeps the
+   witness, replayed at the time on the real compiler under ASan with a 1100-character
+   identifier).  No axioms. *)
 From Coq Require Import ZArith Bool List Lia.
 From NV Require Import Gen.FrontConsts Front.MsgBuf Front.MsgBufProofs.
 Import ListNotations.
 Local Open Scope Z_scope.
 
-(* "<stdin>:1: error: " has 18 characters; a body of 1100 characters (e.g. a diagnostic that
-   quotes a 1100-character identifier) makes vsnprintf write offsets 18 .. 1041 of a
-   1024-byte array. *)
-Theorem msg_write_within_buffer_refuted :
-  exists p b, 0 <= p < MSG_BUF_SIZE /\ 0 <= b /\ ~ writes_within_buffer p b.
+Lemma as_size_small n : 0 <= n < SIZE_T_MOD -> as_size n = n.
+Proof. intros H. unfold as_size. now apply Z.mod_small. Qed.
+
+(* every prefix length is safe on the current tree: short prefixes leave MAX - len bytes to the
+   body, over-long ones are clamped to MAX - 1 and leave one byte (the NUL) *)
+Lemma safe_at_every_prefix : forall p, 0 <= p -> safe_at p = true.
 Proof.
-  exists 18, 1100. split; [split; [discriminate|reflexivity]|]. split; [discriminate|].
-  intros W. apply within_buffer_spec in W; [|discriminate|discriminate].
-  vm_compute in W. discriminate.
+  intros p Hp. unfold safe_at, prefix_extent, body_start, msg_len_after_prefix, msg_body_limit,
+    msg_prefix_limit, MSG_BUF_SIZE, MAX_MSG_SIZE.
+  assert (E1 : as_size 1024 = 1024) by reflexivity. rewrite E1.
+  unfold snprintf_extent. change (1024 =? 0) with false. cbv iota.
+  destruct (Z.leb_spec 1024 p) as [Hge|Hlt].
+  - change (as_size (1024 - (1024 - 1))) with 1.
+    apply andb_true_intro. split; [apply Z.leb_le; lia|].
+    apply orb_true_intro. right. apply andb_true_intro. split; apply Z.leb_le; lia.
+  - rewrite as_size_small by (unfold SIZE_T_MOD; lia).
+    apply andb_true_intro. split; [apply Z.leb_le; lia|].
+    apply orb_true_intro. right. apply andb_true_intro. split; apply Z.leb_le; lia.
 Qed.
 
-(* what the decision procedure computes on this tree: prefix length 1 is already unsafe *)
-Lemma msg_verdict_current_tree : msg_safe_all = false.
-Proof. vm_compute. reflexivity. Qed.
+(* msg_write_within_buffer: every write of print_msg stays inside msg_buf, for ALL prefix and
+   body lengths *)
+Theorem msg_write_within_buffer : forall p b, 0 <= p -> 0 <= b -> writes_within_buffer p b.
+Proof.
+  intros p b Hp Hb. apply (proj2 (msg_write_safe_criterion p Hp)); [|exact Hb].
+  now apply safe_at_every_prefix.
+Qed.
+
+(* what the decision procedure computes on this tree *)
+Lemma msg_verdict_current_tree : msg_safe_all = true /\ msg_overflow_witness = None.
+Proof. split; vm_compute; reflexivity. Qed.
+
+(* the arithmetic of the tree before the fix: size argument MAX_MSG_SIZE whatever msg_len is.
+   "<stdin>:1: error: " has 18 characters; a body of 1100 characters makes vsnprintf write
+   offsets 18 .. 1041 of the 1024-byte array. *)
+Theorem msg_unbounded_body_limit_refuted :
+  exists p b, 0 <= p < MSG_BUF_SIZE /\ 0 <= b /\ within_buffer_with (fun _ => MAX_MSG_SIZE) p b = false.
+Proof.
+  exists 18, 1100. split; [split; [discriminate|reflexivity]|]. split; [discriminate|].
+  vm_compute. reflexivity.
+Qed.
 
 Example msg_ok_short : within_buffer 18 100 = true.
 Proof. vm_compute. reflexivity. Qed.
-Example msg_boundary_last_safe : within_buffer 18 1005 = true.
-Proof. vm_compute. reflexivity. Qed.
-Example msg_boundary_first_unsafe : within_buffer 18 1006 = false.
-Proof. vm_compute. reflexivity. Qed.
+Example msg_truncated_body : within_buffer 18 1100 = true /\ body_extent 18 1100 = 1006.
+Proof. split; vm_compute; reflexivity. Qed.
+Example msg_long_prefix : within_buffer 1100 50 = true /\ body_start 1100 = 1023 /\ body_extent 1100 50 = 1.
+Proof. repeat split; vm_compute; reflexivity. Qed.
+Example msg_before_fix_boundary :
+  within_buffer_with (fun _ => MAX_MSG_SIZE) 18 1005 = true /\ within_buffer_with (fun _ => MAX_MSG_SIZE) 18 1006 = false.
+Proof. split; vm_compute; reflexivity. Qed.
